@@ -7,6 +7,6 @@ export GOFLAGS=-mod=mod GOPROXY=off GOSUMDB=off GOTOOLCHAIN=local CGO_ENABLED=0
 mkdir -p build/bin evidence replays
 cp /repo/go.sum harness/go.sum
 (cd harness && go build -tags verif -o ../build/bin/ ./cmd/...)
-build/bin/extract -repo /repo -cfg harness/extract.cfg -out coq/theories/Gen -report build/extract_report.json
+build/bin/extract -repo /repo -cfg harness/extract.d -out coq/theories/Gen -report build/extract_report.json
 (cd coq && timeout 3000 make -j16 all)
 echo setup done
